@@ -29,6 +29,30 @@ impl Grammar {
         Ok(g)
     }
 
+    /// every string literal the grammar mentions (keywords, operators, brackets, comment delimiters),
+    /// sorted; read from the grammar file, so a literal added to the grammar is picked up
+    pub fn literals(&self) -> Vec<String> {
+        fn walk(e: &Expr, out: &mut std::collections::BTreeSet<String>) {
+            match e {
+                Expr::Str(s) | Expr::Insens(s) => {
+                    out.insert(s.clone());
+                }
+                Expr::PosPred(a) | Expr::NegPred(a) | Expr::Opt(a) | Expr::Rep(a) | Expr::RepOnce(a) | Expr::Push(a) => walk(a, out),
+                Expr::RepExact(a, _) | Expr::RepMin(a, _) | Expr::RepMax(a, _) | Expr::RepMinMax(a, _, _) => walk(a, out),
+                Expr::Seq(a, b) | Expr::Choice(a, b) => {
+                    walk(a, out);
+                    walk(b, out);
+                }
+                _ => {}
+            }
+        }
+        let mut out = std::collections::BTreeSet::new();
+        for (_, e) in self.rules.values() {
+            walk(e, &mut out);
+        }
+        out.into_iter().filter(|s| !s.trim().is_empty()).collect()
+    }
+
     fn expr_depth(&self, e: &Expr, known: &HashMap<String, usize>) -> Option<usize> {
         Some(match e {
             Expr::Str(_) | Expr::Insens(_) | Expr::Range(..) | Expr::PeekSlice(..) => 0,
@@ -431,6 +455,21 @@ const ODD_TOKENS: [&str; 24] = [
     "fees", "Ada", "min_utxo", "tip_slot", "Int", "Bytes", "List<", "Map<", "::", "...", "*", "?", "()", "!", "#", "bitcoin", "cardano",
     "stake_delegation_certificate", "true", "falsey", "\"", "{", "}", "é",
 ];
+
+/// a run of one fragment repeated `n` times (unbalanced openers, operator runs, keyword runs), placed
+/// alone, after a valid program, or inside a transaction body
+pub fn repeated(fragment: &str, n: usize, sep: &str, placement: usize, base: &str) -> String {
+    let run: String = std::iter::repeat(fragment).take(n).collect::<Vec<_>>().join(sep);
+    match placement % 4 {
+        0 => run,
+        1 => format!("{}\n{}", base, run),
+        2 => match base.rfind('}') {
+            Some(i) => format!("{}{}\n{}", &base[..i], run, &base[i..]),
+            None => format!("{}{}", base, run),
+        },
+        _ => format!("{}\n{}", run, base),
+    }
+}
 
 /// programs that nest one bracketing construct `depth` times
 pub fn nested(kind: usize, depth: usize) -> (String, &'static str) {
